@@ -2,26 +2,37 @@
 from __future__ import annotations
 
 import ast
-from typing import List, Set
+from typing import List, Optional, Set, Tuple
 
-from .. import cfg as C
-from .. import fields as F
 from .. import lib as L
 from ..core import AnalysisError, FuncInfo, Repo, unparse
 from ..prov import callee_name
 from ..report import Finding, RuleResult
+from . import _c18_util as U
 
 EXPLANATION = (
-    "C18.simul: a renaming that, inside one loop, removes key k from a container and inserts map[k] into the same container is a "
-    "sequential, not a simultaneous substitution (for a permutation such as {?x->?y, ?y->?x} a freshly inserted key is popped again "
-    "and parameters are lost). Every change_signature must build the renamed container from a snapshot. C18.order: the renamed "
-    "signature is built in the order of the old one and keeps each parameter's type. C18.fields: Action.change_signature reaches "
-    "every field of Action that mentions parameters. C18.pairs: both components of each (in)equality pair are mapped and the new "
-    "sets replace the old ones. C18.nested: nested conditions have their own (in)equality pairs renamed."
+    "All rules look at the public change_signature methods with their private helpers (and shared utilities that receive the "
+    "container) inlined, and identify containers, the renaming map and the old names by def-use provenance, not by names or source "
+    "shape. C18.simul: a renaming that, inside one loop or comprehension, removes entries from a container and inserts map[k] into "
+    "the same container object is a sequential, not a simultaneous substitution (for a permutation such as {?x->?y, ?y->?x} a "
+    "freshly inserted key is popped again and parameters are lost); every change_signature must build the renamed container from a "
+    "snapshot. C18.order: what is written into self.signature (dict comprehension, loop with d[k] = v, dict(zip()), update, "
+    "re-binding) has keys map[old] and values type(old) for the same old parameter, where old ranges over the old signature in its "
+    "own order (no sorted / reversed / set, not the order of the renaming map), without a filter; when the dict is refilled in "
+    "place the old entries are cleared first and the snapshot is taken before the clear. C18.fields: Action.change_signature hands "
+    "the renaming map to change_signature of (every element of) each field of Action that mentions parameters and rewrites its own "
+    "signature (a call that is conditional inside its loop does not count); CompoundPrecondition and NumericalExpressionTree pass "
+    "the map on to their root / leaves; in Precondition.change_signature a renaming call is reachable for every kind of operand "
+    "(valuation of the isinstance tests for Predicate / NumericalExpressionTree / nested Precondition, here and in "
+    "Precondition.__iter__ when the operands are obtained by iterating the condition). C18.pairs: every component "
+    "of each (in)equality pair is looked up in the map (no old name reaches the new set), the pairs come from the same field, "
+    "nothing is filtered, pairs are not removed and inserted one by one, and the new set replaces the old one; a nested condition "
+    "receives change_signature itself (same valuation with 'the operand is a Precondition')."
 )
 UNDECIDED = "behavioural equivalence of the renamed action (applicability and successors for every argument tuple)"
 
 SITES = ["Predicate.change_signature", "PDDLFunction.change_signature", "Action.change_signature"]
+SIG = ("self", "attr:signature")
 
 
 def _map_param(f: FuncInfo) -> str:
@@ -31,145 +42,451 @@ def _map_param(f: FuncInfo) -> str:
     return ps[0]
 
 
+def _obj_text(obj) -> str:
+    return ".".join(s[5:] if s.startswith("attr:") else s for s in obj)
+
+
+def _site(repo: Repo, spec: str, fields=("signature",)):
+    f = U.anchor(repo, spec, fields)
+    return f, U.View(repo, f), _map_param(f)
+
+
+def _from_map(paths, mp: str) -> bool:
+    return any(x[0] == f"param:{mp}" for x in paths)
+
+
+def _is_the_map(v: U.View, e: Optional[ast.AST], mp: str) -> bool:
+    """the expression is the renaming map itself (or a plain copy of it)"""
+    if e is None:
+        return False
+    ents = L.map_entries(v.trace(e))
+    return bool(ents) and all(k == "whole" and x == (f"param:{mp}",) for k, x in ents)
+
+
+# ------------------------------------------------------------------------------------------------ C18.simul
+def _sequential_writes(v: U.View, obj, mp: str):
+    """(insertion, removal) when entries derived from the renaming map are inserted into the object inside a loop that also removes
+    entries from it"""
+    rep = U.Replacement(v, obj)
+    for w in rep.inserts:
+        if w.kind == "rebind":
+            continue
+        lw = U.loops_around(v, w.site)
+        if not lw:
+            continue
+        srcs = [x for x in (w.key, w.value) if x is not None]
+        if not any(_from_map(v.trace(x, keys=True), mp) for x in srcs):
+            continue
+        for rm in rep.removes:
+            if any(any(l is l2 for l2 in lw) for l in U.loops_around(v, rm.site)):
+                return w, rm
+    return None
+
+
 def rule_simul(repo: Repo, floor: int = 3) -> RuleResult:
     r = RuleResult("C18.simul", "the renamed signature is built from a snapshot, not by pop/insert in place inside one loop",
                    "any injective map, including maps whose new names overlap the old ones")
     for spec in SITES:
-        f = repo.func(spec)
-        p = L.prov(repo, f)
-        mp = _map_param(f)
+        f, v, mp = _site(repo, spec)
         r.site(f.qn)
-        offenders = []
-        for loop in [n for n in ast.walk(f.node) if isinstance(n, (ast.For, ast.While))]:
-            inserted, removed = {}, {}
-            for s in C.stmts_in(loop.body):
-                if isinstance(s, ast.Assign):
-                    for t in s.targets:
-                        if isinstance(t, ast.Subscript):
-                            key_from_map = any(x[0] == f"param:{mp}" for x in p.trace(t.slice, keys=True))
-                            if key_from_map:
-                                inserted[ast.unparse(t.value)] = s
-                for c in L.calls_in(s):
-                    if isinstance(c.func, ast.Attribute) and c.func.attr in ("pop", "remove", "discard", "__delitem__"):
-                        removed[ast.unparse(c.func.value)] = c
-                if isinstance(s, ast.Delete):
-                    for t in s.targets:
-                        if isinstance(t, ast.Subscript):
-                            removed[ast.unparse(t.value)] = s
-            for cont in set(inserted) & set(removed):
-                offenders.append((cont, inserted[cont]))
-        if offenders:
-            cont, st = offenders[0]
-            r.fail(Finding("C18.simul", f, f"inplace-rename:{cont}", f"{unparse(st, 80)} pops and inserts in {cont} inside one loop: for a map whose new "
-                           f"names overlap the old ones (e.g. a swap) a just-inserted key is popped again and parameters are lost", node=st))
+        hit = _sequential_writes(v, SIG, mp)
+        if hit:
+            w, rm = hit
+            cont = _obj_text(SIG)
+            r.fail(Finding("C18.simul", f, f"inplace-rename:{cont}", f"{unparse(w.site, 80)} inserts renamed entries into {cont} inside a loop that also removes "
+                           f"entries from it ({unparse(rm.site, 40)}): for a map whose new names overlap the old ones (e.g. a swap) a just-inserted key is "
+                           f"popped again and parameters are lost", node=w.site))
         else:
             r.ok({"function": f.qn, "in_place_pop_insert_loop": False})
     r.require_sites(floor)
     return r
 
 
+# ------------------------------------------------------------------------------------------------ C18.order
+def _entries_of(v: U.View, w: U.Write, obj) -> Set[Tuple[str, tuple]]:
+    """{('key' | 'value' | 'whole', provenance path)} of what the write puts into the mapping"""
+    if w.kind == "insert-item":
+        out = {("key", x) for x in v.content(w.key, obj)}
+        out |= {("value", x) for x in v.content(w.value, obj)}
+        return out
+    out = set()
+    for kind, x in L.map_entries(v.content(w.value, obj)):
+        if kind == "whole":
+            # an iterable of (key, value) pairs:  update((k, v) for ..) / dict([(k, v), ..]) / update(list_of_pairs)
+            for i, s_ in enumerate(x):
+                if s_ in ("in:0", "in:1") and all(U.is_content_step(t) for t in x[i + 1:]) and len(x) > i + 1:
+                    kind, x = ("key" if s_ == "in:0" else "value"), tuple(x[:i])
+                    break
+        out.add((kind, x))
+    return out
+
+
+def _index_use(x: tuple) -> Optional[tuple]:
+    """the path of a value that is used as the index of a lookup: (.., 'askey', ..) / (.., 'arg0:pop' | 'arg0:get', ..)"""
+    for i, s in enumerate(x):
+        if s == "askey" or s in ("arg0:pop", "arg0:get", "arg0:__getitem__"):
+            return tuple(x[:i])
+    return None
+
+
+def _judge_signature_entries(ents, mp: str) -> Tuple[Optional[str], dict]:
+    """None when the entries are {map[old]: type(old) for old in the old signature, in its order}; else what is wrong"""
+    keys_plain, keys_idx, vals_plain, vals_idx, whole = [], [], [], [], []
+    for kind, x in ents:
+        if x and x[0].startswith(("fresh:", "builtin:")):
+            continue
+        iu = _index_use(x)
+        if kind == "key":
+            (keys_idx if iu is not None else keys_plain).append(iu if iu is not None else U.strip_content(x))
+        elif kind == "value":
+            (vals_idx if iu is not None else vals_plain).append(iu if iu is not None else U.strip_content(x))
+        else:
+            whole.append(x)
+    sample = {"keys": sorted(set(keys_plain))[:3], "old_names": sorted(set(keys_idx))[:3], "values": sorted(set(vals_plain))[:3]}
+    for x in whole:
+        lost = [s for s in x if s.startswith(U.ORDER_LOST)]
+        if lost:
+            return f"the renamed entries are put into another order ({lost[0]})", sample
+        return f"a mapping is copied as it is ({'/'.join(x)}): its keys are not renamed", sample
+    if not keys_plain:
+        return "no key of the new signature is looked up in the renaming map", sample
+    for k in keys_plain:
+        if not (len(k) == 2 and k[0] == f"param:{mp}" and k[1] in U.LOOKUPS):
+            if k[0] == f"param:{mp}":
+                return f"the new names are taken from the renaming map by iteration ({'/'.join(k[1:])}), so their order is the map's, not the signature's", sample
+            return f"a key of the new signature is not map[old] ({'/'.join(k)})", sample
+    if not keys_idx:
+        return "the name looked up in the renaming map is not an old parameter", sample
+    for k in keys_idx:
+        c = U.ordered_source(k, SIG)
+        if c is None:
+            return f"the name looked up in the renaming map does not come from the old signature ({'/'.join(k)})", sample
+        if c[0] == "reordered":
+            return f"the old parameters are visited in another order ({c[1]})", sample
+        if c[0] != "key":
+            return f"the name looked up in the renaming map is not a parameter name of the old signature ({c[0]} {c[1] or ''})", sample
+    if not vals_plain:
+        return "the new signature has no types", sample
+    by_lookup = False
+    for x in vals_plain:
+        c = U.ordered_source(x, SIG)
+        if c is None:
+            return f"a type of the new signature does not come from the old signature ({'/'.join(x)})", sample
+        if c[0] == "reordered":
+            return f"the old types are visited in another order ({c[1]})", sample
+        if c[0] == "lookup":
+            by_lookup = True
+        elif c[0] == "value":
+            # the type and the name belong to the same item of the iteration
+            if x[-1] in ("unpack:1", "item:1") and not any(k == x[:-1] + (s,) for k in keys_idx for s in ("unpack:0", "item:0")):
+                return "the type does not belong to the parameter that is renamed (different iterations)", sample
+        else:
+            return f"a value of the new signature is not the type of an old parameter ({c[0]} {c[1] or ''})", sample
+    if by_lookup:
+        if not vals_idx:
+            return "the type is looked up under something else than the old name", sample
+        for k in vals_idx:
+            if k not in keys_idx:
+                return f"the type is looked up under another name than the one that is renamed ({'/'.join(k)})", sample
+    return None, sample
+
+
 def rule_order(repo: Repo) -> RuleResult:
     r = RuleResult("C18.order", "the renamed signature maps every old parameter (in order) to map[old] with its own type",
                    "same number, order and types of parameters")
     for spec in SITES:
-        f = repo.func(spec)
-        p = L.prov(repo, f)
-        mp = _map_param(f)
+        f, v, mp = _site(repo, spec)
         r.site(f.qn)
-        ok = False
-        detail = ""
-        # snapshot form: {map[old]: type for old, type in self.signature.items()}
-        for n in ast.walk(f.node):
-            if isinstance(n, ast.DictComp) and len(n.generators) == 1 and not n.generators[0].ifs:
-                gen = n.generators[0]
-                it = p.trace(gen.iter)
-                from_sig = any(x[:2] == ("self", "attr:signature") and "call:items" in x for x in it)
-                unsorted = not any(any(s.startswith(("arg0:sorted", "arg0:reversed", "arg0:set")) for s in x) for x in it)
-                if from_sig and unsorted and isinstance(gen.target, ast.Tuple) and len(gen.target.elts) == 2:
-                    old, typ = [e.id for e in gen.target.elts if isinstance(e, ast.Name)]
-                    key_ok = isinstance(n.key, ast.Subscript) and isinstance(n.key.value, ast.Name) and n.key.value.id == mp and \
-                        isinstance(n.key.slice, ast.Name) and n.key.slice.id == old
-                    val_ok = isinstance(n.value, ast.Name) and n.value.id == typ
-                    if key_ok and val_ok:
-                        ok = True
-                        detail = "snapshot comprehension over self.signature.items()"
-        # in-place form (sequential): for old in list(keys): sig[map[old]] = sig.pop(old)
-        if not ok:
-            for loop in [n for n in ast.walk(f.node) if isinstance(n, ast.For) and isinstance(n.target, ast.Name)]:
-                it = p.trace(loop.iter)
-                from_sig = any(x[:2] == ("self", "attr:signature") for x in it)
-                unsorted = not any(any(s.startswith(("arg0:sorted", "arg0:reversed", "arg0:set")) for s in x) for x in it)
-                for s in loop.body:
-                    if isinstance(s, ast.Assign) and len(s.targets) == 1 and isinstance(s.targets[0], ast.Subscript):
-                        t = s.targets[0]
-                        kt = p.trace(t.slice, keys=True)
-                        key_ok = any(x[0] == f"param:{mp}" and "askey" not in x for x in kt) and any("elem" in x and "askey" in x for x in kt)
-                        val = s.value
-                        val_ok = isinstance(val, ast.Call) and callee_name(val) == "pop" and val.args and isinstance(val.args[0], ast.Name) \
-                            and val.args[0].id == loop.target.id
-                        if from_sig and unsorted and key_ok and val_ok:
-                            ok = True
-                            detail = "ordered loop over the old keys"
-        if ok:
-            r.ok({"function": f.qn, "form": detail})
-        else:
-            r.fail(Finding("C18.order", f, "rename-shape", "the renamed signature is not built as {map[old]: type(old)} in the order of the old signature"))
+        rep = U.Replacement(v, SIG)
+        if not rep.inserts:
+            r.fail(Finding("C18.order", f, "rename-shape", "the signature is never rewritten: the renamed signature is not built as {map[old]: type(old)}"))
+            continue
+        why, sample, at = None, {}, None
+        for w in rep.inserts:
+            at = w.site
+            if w.kind == "insert-elem":
+                why = f"{unparse(w.site, 60)} is not a mapping insertion"
+                break
+            why, sample = _judge_signature_entries(_entries_of(v, w, SIG), mp)
+            if why is None:
+                flt = U.filtered(v, w.site, w.value)
+                if flt:
+                    why = f"not every parameter is carried over: {flt}"
+            if why:
+                break
+        if why:
+            r.fail(Finding("C18.order", f, "rename-shape", f"the renamed signature is not built as {{map[old]: type(old)}} in the order of the old signature: {why}",
+                           node=at), sample)
+            continue
+        kept = rep.old_content_dropped()
+        if kept:
+            r.fail(Finding("C18.order", f, "old-names-replaced", f"the old parameters are not replaced by the renamed ones: {kept}", node=rep.inserts[0].site), sample)
+            continue
+        r.ok({"function": f.qn, "form": sorted({w.kind for w in rep.inserts}), **sample})
     r.require_sites(3)
     return r
+
+
+# ------------------------------------------------------------------------------------------------ C18.fields
+def _rename_calls(v: U.View, mp: str) -> List[ast.Call]:
+    """X.change_signature(<the renaming map>)"""
+    out = []
+    for c in L.calls_in(v.f.node):
+        if callee_name(c) == "change_signature" and isinstance(c.func, ast.Attribute):
+            arg = c.args[0] if c.args else (c.keywords[0].value if c.keywords else None)
+            if _is_the_map(v, arg, mp):
+                out.append(c)
+    return out
+
+
+def _passes_map_to(v: U.View, mp: str, prefix: tuple, every: bool = False) -> bool:
+    """some X.change_signature(map) has a receiver that derives from `prefix` (every=True: and is not skipped for some elements)"""
+    for c in _rename_calls(v, mp):
+        if any(x[:len(prefix)] == prefix for x in v.trace(c.func.value)) and not (every and U.filtered(v, c)):
+            return True
+    return False
 
 
 def rule_fields(repo: Repo) -> RuleResult:
     r = RuleResult("C18.fields", "Action.change_signature renames every part of the action that mentions parameters",
                    "the renamed schema is applicable in the same states and produces the same successors")
-    f = repo.func("Action.change_signature")
-    got = F.slice_fields(repo, f, f.self_name, "Action", sink="effects")
     need = ["signature", "preconditions", "discrete_effects", "numeric_effects", "conditional_effects", "universal_effects"]
+    f, v, mp = _site(repo, "Action.change_signature", need)
     for fld in need:
         r.site(f"{f.qn} [{fld}]")
-        if fld in got:
+        if fld == "signature":
+            rep = U.Replacement(v, SIG)
+            ok = any(_from_map(v.content(x, SIG), mp) for w in rep.inserts for x in (w.key, w.value) if x is not None)
+        else:
+            ok = _passes_map_to(v, mp, ("self", f"attr:{fld}"), every=True)
+        if ok:
             r.ok({"field": fld, "visited": True})
+        elif fld != "signature" and _passes_map_to(v, mp, ("self", f"attr:{fld}")):
+            r.fail(Finding("C18.fields", f, f"field:{fld}", f"Action.change_signature renames only some elements of self.{fld} (the call is conditional / the loop skips "
+                           f"elements): parameters mentioned in the others keep their old names"))
         else:
             r.fail(Finding("C18.fields", f, f"field:{fld}", f"Action.change_signature never touches self.{fld}: parameters mentioned there keep their old names"))
-    r.require_sites(6)
+    # the containers in between hand the map on
+    for spec, fld, what in (("CompoundPrecondition.change_signature", "root", "the root condition"),
+                            ("NumericalExpressionTree.change_signature", "root", "the function leaves of the expression tree")):
+        g_, gv, gmp = _site(repo, spec, (fld,))
+        r.site(f"{g_.qn} [{fld}]")
+        if _passes_map_to(gv, gmp, ("self", f"attr:{fld}")):
+            r.ok({"function": g_.qn, "passes_map_to": f"self.{fld}"})
+        else:
+            r.fail(Finding("C18.fields", g_, f"field:{fld}", f"{spec} does not hand the renaming map to {what}: parameters mentioned there keep their old names"))
+    # every kind of operand of a (nested) condition is renamed
+    pf, pv, pmp = _site(repo, "Precondition.change_signature", ("operands",))
+    for kind in OPERAND_KINDS:
+        what = "operands:nested-leaves" if kind == "Precondition" else f"operands:{kind}"
+        r.site(f"{pf.qn} [{what}]")
+        how = _operand_renaming(repo, pv, pmp, kind)
+        if ("inner" if kind == "Precondition" else "itself") in how:
+            r.ok({"operand_kind": kind, "renamed": sorted(how)})
+        elif kind == "Precondition":
+            r.fail(Finding("C18.fields", pf, what, "the predicates / numeric conditions inside nested conditions are never handed the renaming map"))
+        else:
+            r.fail(Finding("C18.fields", pf, what, f"operands of class {kind} are never handed the renaming map: they keep the old parameter names"))
+    r.require_sites(11)
     return r
+
+
+# ------------------------------------------------------------------------------------------------ C18.pairs
+def _judge_pairs(v: U.View, w: U.Write, obj, mp: str) -> Optional[str]:
+    """None when what the write inserts are the old pairs of the same field with every component looked up in the map"""
+    if w.value is None:
+        return "nothing is inserted"
+    tr = v.content(w.value, obj)
+    mapped, olds = [], []
+    for x in tr:
+        if x[0].startswith(("fresh:", "builtin:")):
+            continue
+        iu = _index_use(x)
+        if iu is not None:
+            olds.append(iu)
+            continue
+        x = U.strip_content(x, unordered=True)
+        if len(x) == 2 and x[0] == f"param:{mp}" and x[1] in U.LOOKUPS:
+            mapped.append(x)
+        elif x[:len(obj)] == tuple(obj):
+            return f"a component of the old pairs reaches the new set without being renamed ({'/'.join(x[len(obj):]) or 'the old set itself'})"
+        else:
+            return f"the new set contains something that is not map[old] ({'/'.join(x)})"
+    if not mapped:
+        return "no component is looked up in the renaming map"
+    if not olds:
+        return "the names looked up in the renaming map are not components of the old pairs"
+    comps = set()
+    for k in olds:
+        if k[:len(obj)] != tuple(obj) or "elem" not in k:
+            return f"the names looked up in the renaming map do not come from the pairs of this field ({'/'.join(k)})"
+        rest = k[len(obj):]
+        tail = rest[rest.index("elem") + 1:]
+        if any(s.startswith(("in:", "attr:", "call:")) for s in tail):
+            return f"the names looked up in the renaming map are not components of the old pairs ({'/'.join(k)})"
+        comps.add(tail[-1] if tail else "whole")
+    # explicit components: both of them
+    idx = {c[-1] for c in comps if c.startswith(("unpack:", "item:")) and c[-1].isdigit()}
+    if idx and not {"0", "1"} <= idx:
+        return f"only component {sorted(idx)} of a pair is renamed"
+    return None
+
+
+# ---- which kind of operand reaches X.change_signature(map): valuation of the isinstance tests
+OPERAND_KINDS = ("Predicate", "NumericalExpressionTree", "Precondition")
+
+
+def _kind_atom(repo: Repo, f: FuncInfo):
+    """matcher: isinstance(x, T) -> atom 'is:<class names of T>' (T may be a local or module-level tuple of classes)"""
+    def names(t, depth=0):
+        if isinstance(t, ast.Tuple):
+            return [n for e_ in t.elts for n in names(e_, depth)]
+        if isinstance(t, ast.Attribute):
+            return [t.attr]
+        if isinstance(t, ast.Constant) and isinstance(t.value, str):
+            return [t.value]
+        if isinstance(t, ast.Name) and depth < 4:
+            local = [n.value for n in ast.walk(f.node) if isinstance(n, ast.Assign) and any(isinstance(x, ast.Name) and x.id == t.id for x in n.targets)]
+            local += [n.value for n in ast.walk(f.node) if isinstance(n, ast.AnnAssign) and isinstance(n.target, ast.Name) and n.target.id == t.id and n.value is not None]
+            if len(local) == 1:
+                return names(local[0], depth + 1)
+            if local:
+                return ["?"]
+            r = repo.lookup(f.mod.name, t.id)
+            if r and r[0] == "const":
+                return names(r[1], depth + 1)
+            if t.id in repo.classes or (r and r[0] in ("class", "external")):
+                return [t.id]
+            if t.id in ("str", "int", "float", "bool", "tuple", "list", "set", "dict", "object"):
+                return [t.id]
+        return ["?"]
+
+    def m(e):
+        if isinstance(e, ast.Call) and isinstance(e.func, ast.Name) and e.func.id == "isinstance" and len(e.args) == 2:
+            ns = names(e.args[1])
+            if "?" in ns:
+                return None
+            return "is:" + "|".join(sorted(set(ns)))
+        return None
+
+    return m
+
+
+def _scenario(repo: Repo, G: L.Guards, kind: str) -> dict:
+    """valuation of the isinstance atoms when the tested object is an instance of exactly `kind` (tests against a subclass of
+    `kind` stay undecided)"""
+    up = set(repo.mro(kind)) | {kind, "object"}
+    val = {}
+    for a in G.atoms_seen:
+        if not a.startswith("is:"):
+            continue
+        ns = a[3:].split("|")
+        if any(n in up for n in ns):
+            val[a] = True
+        elif any(kind in repo.mro(n) for n in ns):
+            continue
+        else:
+            val[a] = False
+    return val
+
+
+def _iter_delivers(repo: Repo, kind: str) -> Set[str]:
+    """what iterating a Precondition delivers for an operand of class `kind`: 'itself' (the operand is yielded) and / or 'inner'
+    (the items of iterating the operand are yielded)"""
+    it = L.fn(repo, "Precondition.__iter__")
+    p = L.prov(repo, it)
+    G = L.Guards(it, _kind_atom(repo, it))
+    val = _scenario(repo, G, kind)
+    seen = G.reach(val)
+    under = G.under(val, seen)
+    out: Set[str] = set()
+    for n in ast.walk(it.node):
+        if isinstance(n, (ast.Yield, ast.YieldFrom)) and n.value is not None and G.reaches_expr(val, n, seen=seen):
+            for x in p.trace(n.value, under=under):
+                if x[:2] == ("self", "attr:operands") and "elem" in x:
+                    tail = x[x.index("elem") + 1:]
+                    if isinstance(n, ast.YieldFrom):
+                        out.add("inner")
+                    elif all(s.startswith("in:") for s in tail):
+                        out.add("itself")
+                    elif "elem" in tail and not any(s.startswith("attr:") for s in tail):
+                        out.add("inner")
+    return out
+
+
+def _operand_renaming(repo: Repo, v: U.View, mp: str, kind: str) -> Set[str]:
+    """how operands of class `kind` get change_signature(map) in Precondition.change_signature:
+    'itself' (called on the operand) / 'inner' (called on what iterating the operand delivers)"""
+    f = v.f
+    G = L.Guards(f, _kind_atom(repo, f))
+    val = _scenario(repo, G, kind)
+    seen = G.reach(val)
+    under = G.under(val, seen)
+    out: Set[str] = set()
+    delivered = None
+    for c in _rename_calls(v, mp):
+        if not G.reaches_expr(val, c, seen=seen):
+            continue
+        for x in v.trace(c.func.value, under=under):
+            if x[0] != "self" or "elem" not in x:
+                continue
+            i = x.index("elem")
+            pre, post = x[1:i], x[i + 1:]
+            handed_on = lambda steps: all(s in U.ORDER_PASS or s.startswith("arg") or s == "call:__iter__" for s in steps)
+            if pre[:1] == ("attr:operands",) and handed_on(pre[1:]) and not any(s.startswith(("attr:", "call:")) for s in post):
+                out.add("itself")       # an operand taken directly
+            elif handed_on(pre):
+                # an item of iterating the condition itself: what does Precondition.__iter__ deliver for this kind of operand?
+                if delivered is None:
+                    delivered = _iter_delivers(repo, kind)
+                if "itself" in delivered:
+                    out.add("itself")
+    # the calls made for the other kinds of items (the leaves of a nested condition are predicates / expressions)
+    if kind == "Precondition":
+        if "itself" in out:
+            out.add("inner")            # the nested condition renames its own operands
+        else:
+            if delivered is None and any(x[0] == "self" and "elem" in x and "attr:operands" not in x[:x.index("elem")]
+                                         for c in _rename_calls(v, mp) for x in v.trace(c.func.value)):
+                delivered = _iter_delivers(repo, kind)
+            if delivered and "inner" in delivered:
+                out.add("inner")
+    return out
 
 
 def rule_pairs(repo: Repo) -> RuleResult:
     r = RuleResult("C18.pairs", "both components of every (in)equality pair are renamed and the new sets replace the old ones; nested conditions too",
                    "(in)equality constraints follow the renaming")
-    f = repo.func("Precondition.change_signature")
-    p = L.prov(repo, f)
-    mp = _map_param(f)
-    for fld in ("equality_preconditions", "inequality_preconditions"):
+    flds = ("equality_preconditions", "inequality_preconditions")
+    f, v, mp = _site(repo, "Precondition.change_signature", flds + ("operands",))
+    for fld in flds:
         r.site(f"{f.qn} [{fld}]")
-        ok = False
-        for n in ast.walk(f.node):
-            if isinstance(n, ast.Assign) and any(isinstance(t, ast.Attribute) and t.attr == fld and isinstance(t.value, ast.Name) and t.value.id == f.self_name
-                                                 for t in n.targets):
-                tr = p.trace(n.value, keys=True)
-                pair_paths = [x for x in tr if any(s.startswith("in:add") for s in x)]
-                comps = {s for x in pair_paths for s in x if s.startswith("in:") and s[3:].isdigit()}
-                from_same = any(x[:2] == ("self", f"attr:{fld}") for x in tr)
-                via_map = any(x[0] == f"param:{mp}" for x in tr)
-                if from_same and via_map and comps >= {"in:0", "in:1"}:
-                    ok = True
-        if ok:
+        obj = ("self", f"attr:{fld}")
+        rep = U.Replacement(v, obj)
+        why, at = None, None
+        if not rep.inserts:
+            why = "no new set is stored"
+        for w in rep.inserts:
+            at = w.site
+            why = _judge_pairs(v, w, obj, mp)
+            if why is None:
+                flt = U.filtered(v, w.site, w.value)
+                if flt:
+                    why = f"not every pair is carried over: {flt}"
+            if why:
+                break
+        if why is None and rep.sequential() is not None:
+            w, rm = rep.sequential()
+            at, why = w.site, f"pairs are removed and inserted one by one in the same loop ({unparse(rm.site, 40)}): a renamed pair can be removed again"
+        if why is None:
+            why = rep.old_content_dropped()
+        if why is None:
             r.ok({"field": fld, "renamed_pairwise_and_replaced": True})
         else:
-            r.fail(Finding("C18.pairs", f, f"pairs:{fld}", f"{fld} is not rebuilt as {{(map[a], map[b])}} from the old pairs and stored back"))
-    # nested conditions: their own pairs must be renamed -> some Precondition-typed operand must get change_signature
+            r.fail(Finding("C18.pairs", f, f"pairs:{fld}", f"{fld} is not rebuilt as {{(map[a], map[b])}} from the old pairs and stored back: {why}", node=at))
+    # nested conditions: their own pairs must be renamed -> a nested Precondition operand must itself get change_signature
     r.site(f"{f.qn} [nested conditions]")
-    reaches_nested = False
-    for c in L.calls_in(f.node):
-        if callee_name(c) == "change_signature" and isinstance(c.func, ast.Attribute):
-            tr = p.trace(c.func.value)
-            # an element of self.operands taken directly (not through __iter__, which flattens nested conditions away)
-            if any(x[:2] == ("self", "attr:operands") and "elem" in x for x in tr):
-                reaches_nested = True
-    it = repo.func("Precondition.__iter__")
-    yields_nested = any(isinstance(n, ast.Yield) and n.value is not None and isinstance(n.value, ast.Tuple) for n in ast.walk(it.node)) and \
-        not any(isinstance(n, ast.YieldFrom) for n in ast.walk(it.node))
-    if reaches_nested or yields_nested:
+    if "itself" in _operand_renaming(repo, v, mp, "Precondition"):
         r.ok({"nested_conditions_renamed": True})
     else:
         r.fail(Finding("C18.pairs", f, "nested-pairs", "nested conditions are reached only through __iter__, which yields their leaves: the (in)equality pairs of a "
